@@ -185,6 +185,10 @@ def fetch_rules(chk, prog):
 
 
 def run(chk, tier):
+    # an object stashed in a set that is reachable from the root survives every collection while the set holds its
+    # pointer: H1 of the heap exploration, whose adoption paths include DynamicRootSet::stash (DESIGN.md §11)
+    from gcv import heap_check
+    heap_check.report(chk, tier, owns=("H1",))
     cfgs = typestate.configs(tier)
     chk.extra["feature_configs"] = cfgs
     for c in cfgs:
